@@ -246,7 +246,7 @@ fn model_provider(defs: &Defs, tm: &TextModel, reading: usize, p: &Provider, off
             if !*relaxed && off > 0 && tm.cont[reading][off] + 1 == tm.cont[reading][off - 1] {
                 return out;
             }
-            let end = n.min(off + max_len);
+            let end = n.min(off.saturating_add(*max_len));
             let slice: String = tm.chars[off..end].iter().collect();
             let pattern = if re.starts_with('^') { re.clone() } else { format!("^{}", re) };
             if let Ok(rx) = regex::Regex::new(&pattern) {
@@ -366,9 +366,11 @@ pub fn run(ctx: &Ctx, rep: &mut Report) {
                 oov_cfg.push(json!({"class": format!("{}MeCabOovPlugin", CLS), "charDef": if own_class_table { "oov-classes.def" } else { "char.def" }, "unkDef": "unk.def"}));
             }
             if o == 1 && rng.chance(1, 2) {
-                let re = rng.s(&["[a-zZ]+[0-9]*", "[0-9ab]+", "[アイー]{2,}", "(漢|字|々)+", ".{70}", "a?", "a{64}", "[あい]{64}", "1{65}", ".{64}"]).to_string();
+                let re = rng.s(&["[a-zZ]+[0-9]*", "[0-9ab]+", "[アイー]{2,}", "(漢|字|々)+", ".{70}", "a?", "a{64}", "[あい]{64}", "1{65}", ".{64}",
+                    // alternations: the provider anchors the first branch only; a match of a later branch that starts further right is no candidate
+                    "[a-z]+[0-9]+|[0-9]+[a-z]+", "ab|b", "漢字|[0-9]+"]).to_string();
                 let relaxed = rng.chance(1, 2);
-                let max_len = *rng.pick(&[2usize, 3, 32, 100]);
+                let max_len = *rng.pick(&[2usize, 3, 32, 100, 100, usize::MAX]);
                 let (l, r, c) = (rng.range(0, nid - 1) as i16, rng.range(0, nid - 1) as i16, rng.range(500, 9000) as i16);
                 let pos = pool[rng.below(3)].clone();
                 oov_cfg.push(json!({"class": format!("{}RegexOovProvider", CLS), "oovPOS": pos.to_vec(), "leftId": l, "rightId": r, "cost": c,
